@@ -29,7 +29,10 @@ type Outcome struct {
 	Res    *simrt.Result
 	Viol   []Violation
 	Sample any    // API-level description of the run (for evidence samples)
-	Infra  string // non-empty: the run is unusable (simulator trouble), never a violation
+	// NonTrivial lets a world without concurrency state its own rule
+	// (Res.NonTrivial is about schedules).
+	NonTrivial bool
+	Infra      string // non-empty: the run is unusable (simulator trouble), never a violation
 }
 
 type World struct {
@@ -139,7 +142,7 @@ func Main(w World) {
 		for k, v := range r.Probes {
 			st.Probes[k] += v
 		}
-		if r.NonTrivial {
+		if r.NonTrivial || o.NonTrivial {
 			nt[r.Hash] = struct{}{}
 		}
 		hashes[r.Hash] = struct{}{}
@@ -168,7 +171,7 @@ func Main(w World) {
 			st.Failing = append(st.Failing, ReplayFile{Property: *prop, World: w.Name, Seed: *seed, Run: run,
 				Choices: rec.Log, Violation: v, LogHash: fmt.Sprintf("%016x", r.Hash), Steps: r.Steps})
 		}
-		if len(st.Samples) < 2 && o.Sample != nil && r.NonTrivial && run%7 == 3 {
+		if len(st.Samples) < 2 && o.Sample != nil && (r.NonTrivial || o.NonTrivial) && run%7 == 3 {
 			st.Samples = append(st.Samples, o.Sample)
 		}
 	}
